@@ -313,7 +313,7 @@ def check_full(a):
     return res, "ok"
 
 
-ANTE = ["Bar", "Garcia-Lopez", "Jones", "Smith"]
+ANTE = ["Bar", "Garcia-Lopez", "Jones", "Smith", "Pe\u00f1a", "Mu\u00f1oz-\u00c9lan"]
 SREP = [("U.S.", "U.S."), ("F.2d", "F.2d"), ("U. S.", "U.S."), ("S. Ct.", "S. Ct.")]
 SPIN = ["5", "5-6", "5, 7", "5, n.3", "123:24-25", "5, & n.2"]
 LPIN = ["5", "5-6", "5, 7", "5, n.3", "*5", "¶ 5", "123:24-25", "pp. 5-6"]
